@@ -65,6 +65,7 @@ type c14Fn struct {
 	Obj    string            `json:"obj"`
 	Wide   bool              `json:"wide"` // the function belongs to one package or is an instantiation: one program-wide name
 	Names  map[string]string `json:"names"`
+	Lost   []string          `json:"lost"` // compiled in that package by the rules below, but the name is not defined in its module
 }
 
 type c14Sym struct {
@@ -198,6 +199,7 @@ var (
 	c14Fset   = token.NewFileSet()
 	c14Std    *packages.Importer
 	c14RefPat = regexp.MustCompile(`@([0-9]+)\b`)
+	c14PrivPat = regexp.MustCompile(`(?m)^@([0-9]+) = (?:private|internal) (.*)$`)
 )
 
 var c14RT *types.Package
@@ -245,20 +247,18 @@ func c14Digest(s string) string {
 }
 
 func c14Symbols(mod llvm.Module) []c14Sym {
+	// module-private constants are unnamed (printed as numbered slots @N); map the slots to their contents
 	priv := map[string]string{}
+	for _, m := range c14PrivPat.FindAllStringSubmatch(mod.String(), -1) {
+		priv[m[1]] = m[2]
+	}
 	var syms []c14Sym
 	for g := mod.FirstGlobal(); !g.IsNil(); g = llvm.NextGlobal(g) {
-		name := g.Name()
 		lk := c14Linkage(g.Linkage())
 		if lk == "private" {
-			init := ""
-			if !g.IsDeclaration() {
-				init = g.Initializer().String()
-			}
-			priv[name] = init
 			continue
 		}
-		s := c14Sym{Name: name, Kind: "var", Linkage: lk, Defined: !g.IsDeclaration()}
+		s := c14Sym{Name: g.Name(), Kind: "var", Linkage: lk, Defined: !g.IsDeclaration()}
 		s.Size = g.GlobalValueType().String()
 		syms = append(syms, s)
 	}
@@ -278,6 +278,91 @@ func c14Symbols(mod llvm.Module) []c14Sym {
 		syms = append(syms, s)
 	}
 	return syms
+}
+
+// c14CompileSet: the functions whose bodies package pkg emits into its own module, following cl: its members and the
+// methods of its types (compileType), their function literals, every function without a home package that one of
+// them mentions (compileFunction: instances, wrappers, thunks, bound-method closures are compiled where they are
+// used), and the methods of instantiated / function-local / unnamed types whose descriptor it needs
+// (checkCompileMethods).
+func c14CompileSet(goProg *ssa.Program, pkg *ssa.Package) map[*ssa.Function]bool {
+	set := map[*ssa.Function]bool{}
+	var visit func(f *ssa.Function)
+	addMethods := func(t types.Type) {
+		ms := goProg.MethodSets.MethodSet(t)
+		for i := 0; i < ms.Len(); i++ {
+			if m := goProg.MethodValue(ms.At(i)); m != nil {
+				visit(m)
+			}
+		}
+	}
+	checkType := func(orig types.Type) {
+		nt := orig
+		for {
+			switch x := nt.(type) {
+			case *types.Named:
+				if x.TypeArgs() == nil {
+					if o := x.Obj(); o.Pkg() == nil || o.Parent() == o.Pkg().Scope() {
+						return
+					}
+				}
+				addMethods(orig)
+				return
+			case *types.Struct:
+				addMethods(orig)
+				return
+			case *types.Pointer:
+				nt = x.Elem()
+				continue
+			case *types.Alias:
+				nt = types.Unalias(x)
+				continue
+			}
+			return
+		}
+	}
+	visit = func(f *ssa.Function) {
+		if f == nil || set[f] || !(f.Pkg == pkg || f.Pkg == nil) {
+			return
+		}
+		if f.TypeParams().Len() > 0 && len(f.TypeArgs()) == 0 {
+			return
+		}
+		set[f] = true
+		for _, a := range f.AnonFuncs {
+			visit(a)
+		}
+		for _, b := range f.Blocks {
+			for _, ins := range b.Instrs {
+				for _, op := range ins.Operands(nil) {
+					if op == nil || *op == nil {
+						continue
+					}
+					if g, ok := (*op).(*ssa.Function); ok {
+						visit(g)
+					}
+				}
+				switch v := ins.(type) {
+				case *ssa.MakeInterface:
+					checkType(v.X.Type())
+				case *ssa.TypeAssert:
+					checkType(v.AssertedType)
+				}
+			}
+		}
+	}
+	for _, m := range pkg.Members {
+		switch m := m.(type) {
+		case *ssa.Function:
+			visit(m)
+		case *ssa.Type:
+			if tn, ok := m.Object().(*types.TypeName); ok && !tn.IsAlias() {
+				addMethods(tn.Type())
+				addMethods(types.NewPointer(tn.Type()))
+			}
+		}
+	}
+	return set
 }
 
 func c14Run(p *c14Prog) (out c14Out) {
@@ -333,6 +418,8 @@ func c14Run(p *c14Prog) (out c14Out) {
 	out.Modules = map[string][]c14Sym{}
 	ctxs := map[string]*context{}
 	symset := map[string]map[string]bool{}
+	defset := map[string]map[string]bool{}
+	compiled := map[string]map[*ssa.Function]bool{}
 	for _, b := range pkgs {
 		PreCollectLinknames(prog, b.spec.Path, b.files)
 	}
@@ -342,13 +429,21 @@ func c14Run(p *c14Prog) (out c14Out) {
 			out.Err = "NewPackageEx " + b.spec.Path + ": " + err.Error()
 			return
 		}
+		if dump := os.Getenv("VERIF_C14_DUMP"); dump != "" {
+			os.WriteFile(filepath.Join(dump, p.ID+"-"+strings.ReplaceAll(b.spec.Path, "/", "_")+".ll"), []byte(ret.String()), 0o644)
+		}
 		syms := c14Symbols(ret.Module())
 		out.Modules[b.spec.Path] = syms
-		set := map[string]bool{}
+		set, dset := map[string]bool{}, map[string]bool{}
 		for _, s := range syms {
 			set[s.Name] = true
+			if s.Defined {
+				dset[s.Name] = true
+			}
 		}
 		symset[b.spec.Path] = set
+		defset[b.spec.Path] = dset
+		compiled[b.spec.Path] = c14CompileSet(goProg, b.ssa)
 		// a context like the one newPackageEx builds, to ask the naming functions afterwards
 		ctxs[b.spec.Path] = &context{
 			prog: prog, pkg: ret, fset: goProg.Fset, goProg: goProg, goTyps: b.typs, goPkg: b.ssa,
@@ -429,8 +524,10 @@ func c14Run(p *c14Prog) (out c14Out) {
 				if ftype != goFunc {
 					return
 				}
-				if symset[path][name] {
-					rec.Names[path] = name // the package's module really mentions the function under this name
+				if compiled[path][fn] && defset[path][name] {
+					rec.Names[path] = name // this package compiles the function and its module defines the name
+				} else if compiled[path][fn] {
+					rec.Lost = append(rec.Lost, path+" "+name)
 				}
 			}()
 		}
